@@ -3,7 +3,7 @@
 From Verif Require Import Base.Tactics Base.ZList Base.Val.
 From Verif Require Import Base.Str.
 From Verif Require Import Model.BufReaderModel Model.RangeModel Model.IsoTimeModel Model.TimingModel Model.SegModel.
-From Verif Require Import Base.Bits Model.CrcModel Model.EventsModel Model.Scte35Model Model.MpsModel Model.AuthModel Model.OptionsModel Model.BoxModel Model.FragModel Model.DrmModel Model.ErrModel Model.OptErrModel.
+From Verif Require Import Base.Bits Model.CrcModel Model.EventsModel Model.Scte35Model Model.MpsModel Model.AuthModel Model.OptionsModel Model.BoxModel Model.FragModel Model.DrmModel Model.ErrModel Model.OptErrModel Model.XmlModel.
 
 (* ---- C20 ---- request: (file off bs maxb (size?) mode ops) *)
 Definition c20_op (v : val) : op :=
@@ -362,8 +362,19 @@ Definition c16_run (v : val) : val :=
     match parse_any (c07_kind (vnth 1 v)) (vints (vnth 2 v)) with Some x => VL [c07_value_out x] | None => VL [] end
   else verr 993.
 
+(* ---- C05 ---- request: (mode ...)  0: escape s   1: amp_only s   2: ctx_safe (ctxcode quote) s *)
+Definition c05_run (v : val) : val :=
+  let mode := vint (vnth 0 v) in
+  if mode =? 0 then of_ints (XmlModel.escape (vints (vnth 1 v)))
+  else if mode =? 1 then of_ints (amp_only (vints (vnth 1 v)))
+  else if mode =? 2 then
+    let c := if vint (vnth 1 v) =? 0 then CText else CAttr (vint (vnth 2 v)) in
+    vbool (ctx_safe c (vints (vnth 3 v)))
+  else verr 992.
+
 Definition dispatch (comp : Z) (v : val) : val :=
   if comp =? 20 then c20_run v
+  else if comp =? 5 then c05_run v
   else if comp =? 16 then c16_run v
   else if comp =? 11 then c11_run v
   else if comp =? 3 then c03_run v
